@@ -165,7 +165,8 @@ Proof.
                     (note (EvBody KLoadCss p id) (unlock p s1)) Hc') as P.
       cbn [loading note unlock set_loading] in P. rewrite L1, (remove1_head p _ M) in P.
       specialize (P Hi2 Hlp Hb).
-      destruct (exec_body _ p (content id) _) as [s2|e s2|]; cbn in P |- *; auto.
+      destruct (exec_body _ p (content id) _) as [s2|e s2|]; [|exact P|exact P].
+      cbn [post loading note unlock set_loading] in P |- *. rewrite P, L1. apply remove1_head. exact M.
   - destruct (is_import k && plain_css u unq); cbn; auto.
   - destruct e; cbn; auto. destruct F as (p & id & R & M).
     exists st, cur, p. repeat split; auto.
@@ -339,6 +340,6 @@ Lemma refuted_spelling_partial : forall n, n <= 40 ->
   run (oracle_of w_spelling MNorm) (assoc_body w_spelling) n "t.scss" "t.scss" = RFuel.
 Proof.
   intros n Hn. pose proof (sweep1 _ _ refuted_spelling_bounded n) as H.
-  assert (Hin : In n (seq 0 41)) by (apply in_seq; lia). specialize (H Hin).
+  assert (Hin : In n (seq 0 41)) by (apply in_seq; lia). specialize (H Hin). cbv beta in H.
   destruct (run _ _ n _ _); try discriminate. reflexivity.
 Qed.
